@@ -306,6 +306,18 @@ def h_dyn(npre: int, s0: int, s1: int, s2: int, o0: int, o1: int, o2: int, ms: i
                     pa, ps = ca.cache_parameters(), cs.cache_parameters()
                     if pa["maxsize"] != ps["maxsize"] or pa["typed"] != ps["typed"]:
                         ok = fail("lru_cache:cache_parameters-differ", (pa, ps)) and ok
+        # probe the recency order (not otherwise observable within k steps): insert fresh keys
+        # until the oldest entry has been evicted, then call every key once - all concrete,
+        # identical on all sides, adds no paths
+        if ok and not symbolic and m.maxsize is not None and m.maxsize > 0:
+            fresh = [((100 + i,), ()) for i in range(m.maxsize - len(m.d) + 1)]
+            for pat in fresh + KEYS[:NKEY]:
+                ra, rs, rm = do_call(D, ca, cs, m, mode, pat, False, use_std and not used_discard)
+                if not same_res(ra, rm) or (not used_discard and not same_res(ra, rs)):
+                    ok = fail("lru_cache:recency-order-differs(probe)", (trace, pat, ra, rs, rm)) and ok
+                    break
+            if ok and info_a(ca) != m.info():
+                ok = fail("lru_cache:cache_info-differs-after-probe", (trace, info_a(ca), m.info())) and ok
         if log_a != m.log:
             ok = fail("lru_cache:invocations-differ-from-model", (trace, log_a, m.log)) and ok
         if use_std and not used_discard and log_a != log_s:
